@@ -188,6 +188,8 @@ struct State {
     fired: BTreeMap<String, u32>,              // observer -> firings in the current transaction
     direct_events: BTreeSet<String>,           // type ids whose own observer fired
     deep_events: Vec<(String, String, String)>, // (deep-observed root, target id, reported path)
+    direct_order: Vec<String>,                  // type ids in the order their own observers fired (= the order the events were created)
+    deep_calls: Vec<(String, Vec<(String, Vec<(bool, String)>)>)>, // per deep observer call: observing root, its events (target, path segments) in the order given
     problems: Vec<String>,
     ins: Option<IdSet>, del: Option<IdSet>,
     snap: Option<VStore>,                       // the store as the first observer of the transaction saw it
@@ -202,6 +204,7 @@ fn on_direct(st: &Arc<Mutex<State>>, id: &str, ev: EvRef, txn: &TransactionMut) 
     let mut g = st.lock().unwrap();
     *g.fired.entry(format!("observe:{id}")).or_insert(0) += 1;
     g.direct_events.insert(id.to_string());
+    g.direct_order.push(id.to_string());
     capture(&mut g, txn);
     let mut tab = std::mem::take(&mut g.intern); let ie = impl_event(&mut tab, id, &ev, txn); g.intern = tab; g.impl_events.push(ie);
     let mut pr = vec![]; let mut n = g.direct.remove(id).unwrap_or_default();
@@ -225,6 +228,13 @@ fn on_deep(st: &Arc<Mutex<State>>, root: &str, txn: &TransactionMut, evs: &yrs::
     let mut g = st.lock().unwrap();
     *g.fired.entry(format!("observe_deep:{root}")).or_insert(0) += 1;
     capture(&mut g, txn);
+    {
+        let call: Vec<(String, Vec<(bool, String)>)> = evs.iter().map(|ev| {
+            let t = match ev.target() { Out::YWeakLink(w) => bid(w.as_ref()), o => out_bid(&o).unwrap_or_else(|| "?".to_string()) };
+            (t, ev.path().iter().map(|p| match p { PathSegment::Key(k) => (true, k.to_string()), PathSegment::Index(i) => (false, format!("{:x}", i)) }).collect())
+        }).collect();
+        g.deep_calls.push((format!("R{}", root), call));
+    }
     // a deep observer receives the event of a changed descendant once
     { let mut seen: Vec<String> = vec![]; for ev in evs.iter() { if let Some(id) = out_bid(&ev.target()) { if seen.contains(&id) { g.problems.push(format!("observe_deep({root}) received the event of {id} twice in one call")); } seen.push(id); } } }
     for ev in evs.iter() {
@@ -237,6 +247,51 @@ fn on_deep(st: &Arc<Mutex<State>>, root: &str, txn: &TransactionMut, evs: &yrs::
         g.deep.insert(id.clone(), n);
         for p in pr { g.problems.push(format!("observe_deep({root}) event for {id}: {p}")); }
     }
+}
+
+/// The dispatch of one transaction in the notation of the runner's `EVD deep` (Crdt/Dispatch.v): the forest of shared types as the
+/// observers saw it, the types whose own event was created (in creation order), the deep-observed roots; and what the deep
+/// observers really received. None = a type of the transaction is not part of the dumped forest (counted by the caller).
+fn evd_tie(vs: &VStore, direct_order: &[String], deep_calls: &[(String, Vec<(String, Vec<(bool, String)>)>)]) -> Option<(String, String)> {
+    use yrs::verif::{VBlock, VParent};
+    let pid = |p: &VParent| match p { VParent::Root(n) => Some(format!("R{}", n)), VParent::Nested(id) => Some(format!("{:x}:{:x}", id.client.get(), id.clock)), _ => None };
+    let holder = |id: &ID| vs.blocks.iter().flat_map(|(_, bs)| bs.iter()).find_map(|b| match b { VBlock::Item(i) if i.id == *id => Some(i), _ => None });
+    // types with their parent, in parents-first order
+    let mut tys: Vec<(String, Option<String>, Option<String>, Option<ID>, &yrs::verif::VBranch)> = vec![];
+    for b in &vs.branches {
+        match &b.id {
+            VParent::Root(n) => tys.push((format!("R{}", n), None, None, None, b)),
+            VParent::Nested(id) => { let h = holder(id)?; tys.push((format!("{:x}:{:x}", id.client.get(), id.clock), Some(pid(&h.parent)?), h.parent_sub.clone(), Some(*id), b)); }
+            _ => return None,
+        }
+    }
+    let depth = |start: &str| { let mut d = 0; let mut cur = start.to_string(); for _ in 0..64 { match tys.iter().find(|t| t.0 == cur).and_then(|t| t.1.clone()) { Some(p) => { d += 1; cur = p; } None => break } } d };
+    let mut order: Vec<usize> = (0..tys.len()).collect(); order.sort_by_key(|i| (depth(&tys[*i].0), tys[*i].0.clone()));
+    let index_of = |id: &str| order.iter().position(|i| tys[*i].0 == id);
+    let mut keys: Vec<String> = vec![]; let mut key_no = |k: &str, keys: &mut Vec<String>| { if let Some(p) = keys.iter().position(|x| x == k) { p + 1 } else { keys.push(k.to_string()); keys.len() } };
+    let mut items: Vec<(u64, u32)> = vec![]; let mut item_no = |id: &ID, items: &mut Vec<(u64, u32)>| { let k = (id.client.get(), id.clock); if let Some(p) = items.iter().position(|x| *x == k) { p + 1 } else { items.push(k); items.len() } };
+    let mut rows = vec![];
+    for i in order.iter() {
+        let (_, parent, sub, hid, b) = &tys[*i];
+        let p = match parent { Some(p) => format!("{:x}", index_of(p)?), None => "-".to_string() };
+        let sb = match sub { Some(k) => format!("{:x}", key_no(k, &mut keys)), None => "-".to_string() };
+        let h = match hid { Some(id) => format!("{:x}", item_no(id, &mut items)), None => "0".to_string() };
+        let seq = if b.seq.is_empty() { "_".to_string() } else { b.seq.iter().map(|it| format!("{:x}.{:x}.{}", item_no(&it.id, &mut items), if it.countable { it.len } else { 0 }, it.deleted as u8)).collect::<Vec<_>>().join(",") };
+        let links = match hid.and_then(|id| holder(&id)) { Some(h) if h.linked => { let qs: Vec<String> = vs.links.iter().filter(|(i0, _, _)| *i0 == h.id).flat_map(|(_, _, qs)| qs.iter()).filter_map(|q| index_of(&format!("{:x}:{:x}", q.client.get(), q.clock))).map(|x| format!("{:x}", x)).collect(); if qs.is_empty() { "_".to_string() } else { qs.join(",") } } _ => "_".to_string() };
+        rows.push(format!("{};{};{};{:x};{};{}", p, sb, h, b.type_ref, seq, links));
+    }
+    let mut events = vec![]; for id in direct_order { events.push(format!("{:x}", index_of(id)?)); }
+    let dobs: Vec<String> = [ROOT_TEXT, ROOT_ARRAY, ROOT_MAP, ROOT_XML].iter().filter_map(|r| index_of(&format!("R{}", r))).map(|x| format!("{:x}", x)).collect();
+    let cmd = format!("EVD deep {} {} {}", if rows.is_empty() { "_".to_string() } else { rows.join("/") }, if events.is_empty() { "_".to_string() } else { events.join(",") }, if dobs.is_empty() { "_".to_string() } else { dobs.join(",") });
+    let mut calls: Vec<(usize, String)> = vec![];
+    for (o, evs) in deep_calls {
+        let oi = index_of(o)?;
+        let mut es = vec![];
+        for (t, path) in evs { es.push(format!("{:x}:{}", index_of(t)?, path.iter().map(|(isk, v)| if *isk { format!("k{:x}", key_no(v, &mut keys)) } else { format!("i{}", v) }).collect::<Vec<_>>().join("."))); }
+        calls.push((oi, format!("{:x}[{}]", oi, es.join("|"))));
+    }
+    calls.sort();
+    Some((cmd, if calls.is_empty() { "_".to_string() } else { calls.into_iter().map(|c| c.1).collect::<Vec<_>>().join(";") }))
 }
 
 struct Obs { rep: Replica, st: Arc<Mutex<State>>, subs: BTreeMap<String, Subscription>, _keep: Vec<Subscription> }
@@ -386,6 +441,7 @@ fn run_case(seed: u64, index: u64, rep: &mut Report, m: &mut Model) {
     // chain of parents of the array then reaches the root map twice, directly and through the link (found by the Coq transcription
     // of call_type_observers, Crdt/Dispatch.v: evd_at_most_once_links_refuted)
     let linked = index % 4 == 0;
+    let mut link_sub = vec![false; n];
     if linked {
         use yrs::{Array, Map};
         let m0 = obs[0].rep.doc.get_or_insert_map(ROOT_MAP);
@@ -402,7 +458,7 @@ fn run_case(seed: u64, index: u64, rep: &mut Report, m: &mut Model) {
         let i = r.below(n as u64) as usize;
         let cand: Vec<usize> = (0..msgs.len()).filter(|m| !delivered[i].contains(m)).collect();
         let before = actual(&obs[i].rep);
-        { let mut g = obs[i].st.lock().unwrap(); g.fired.clear(); g.deep_events.clear(); g.direct_events.clear(); g.ins = None; g.del = None; g.snap = None; g.impl_events.clear(); g.intern.clear(); }
+        { let mut g = obs[i].st.lock().unwrap(); g.fired.clear(); g.deep_events.clear(); g.direct_events.clear(); g.direct_order.clear(); g.deep_calls.clear(); g.ins = None; g.del = None; g.snap = None; g.impl_events.clear(); g.intern.clear(); }
         let what;
         let qa: Option<yrs::ArrayRef> = if linked && r.chance(1, 4) { use yrs::Map; let mm = obs[i].rep.doc.get_or_insert_map(ROOT_MAP); let t = obs[i].rep.doc.transact(); match mm.get(&t, "qa") { Some(Out::YArray(a)) => Some(a), _ => None } } else { None };
         if let Some(a) = qa {
@@ -428,6 +484,24 @@ fn run_case(seed: u64, index: u64, rep: &mut Report, m: &mut Model) {
         script.push(what.clone());
         let after = actual(&obs[i].rep);
         let tch = { let g = obs[i].st.lock().unwrap(); match (&g.snap, &g.ins, &g.del) { (Some(vs), Some(ins), Some(del)) => touched(vs, ins, del), _ => BTreeSet::new() } };
+        // ---- the dispatch itself (Crdt/Dispatch.v: call_observers, call_type_observers, Events::new, Branch::path): given the forest as
+        // the observers saw it and the types whose own event was created, the transcription says which deep observer receives which
+        // events with which paths, in which order
+        {
+            let g = obs[i].st.lock().unwrap();
+            if let Some(vs) = &g.snap {
+                match evd_tie(vs, &g.direct_order, &g.deep_calls) {
+                    Some((cmd, want)) => {
+                        let ans = m.ask(&cmd);
+                        rep.count("c11_transactions_whose_dispatch_was_compared_with_the_transcription");
+                        rep.add("c11_deep_observer_calls_compared_with_the_transcription", g.deep_calls.len() as u64);
+                        let got = ans.strip_prefix("ok ").map(|x| x.split(" cpt=").next().unwrap_or("").to_string());
+                        if got.as_deref() != Some(want.as_str()) { rep.disagree(json!({"kind": "observer dispatch (EVD deep)", "model": ans.chars().take(800).collect::<String>(), "impl": want, "command": cmd.chars().take(1500).collect::<String>(), "after": what, "case": {"stream": 111, "index": index, "seed": seed}, "script": script})); }
+                    }
+                    None => rep.count("c11_transactions_with_a_type_outside_the_dumped_forest"),
+                }
+            }
+        }
         let mut disagree = vec![];
         { let mut g = obs[i].st.lock().unwrap(); compare_with_model(m, &mut g, &before, &after, rep, &what, &mut fails, &mut disagree); }
         for mut d in disagree { d["property"] = json!("C11"); d["case"] = json!({"stream": 111, "index": index, "seed": seed}); d["script"] = json!(script); rep.disagree(d); }
@@ -468,6 +542,13 @@ fn run_case(seed: u64, index: u64, rep: &mut Report, m: &mut Model) {
         }
         obs[i].st.lock().unwrap().problems.clear();
         sync_subscriptions(&mut obs[i]);
+        // the link itself is a shared type with an observer of its own (its events take part in the dispatch)
+        if linked && !link_sub[i] {
+            use yrs::Map;
+            let mm = obs[i].rep.doc.get_or_insert_map(ROOT_MAP);
+            let w = { let t = obs[i].rep.doc.transact(); match mm.get(&t, "ql") { Some(Out::YWeakLink(w)) => Some(w), _ => None } };
+            if let Some(w) = w { let id = bid(w.as_ref()); let st2 = obs[i].st.clone(); obs[i]._keep.push(w.observe(move |_, _| { st2.lock().unwrap().direct_order.push(id.clone()); })); link_sub[i] = true; }
+        }
         if fails.iter().any(|f| f["class"] != "event-for-touched-but-unchanged-type") { break; }
     }
     rep.evaluations += 1;
